@@ -140,6 +140,7 @@ func Open(opt *Options) *DB {
 		Dir:         opt.WorkDir,
 		SyncOnWrite: false,
 		FS:          db.fs,
+		BufferSize:  verifhook.Int("wal.buffer-size"), // 0 (always, without the verif tag) = default
 	})
 	utils.Panic(err)
 	db.wal = wlog
